@@ -607,6 +607,64 @@ func main() {
 		}
 	}
 
+	// --- secret values: DeriveSV directly and through the backend (KDF executed on both sides)
+	for i := 0; i < e.N(250, 4000); i++ {
+		secret := r.Bytes(r.Range(1, 40))
+		switch r.Intn(12) {
+		case 0:
+			secret = nil
+		case 1:
+			secret = r.Bytes(r.Range(41, 120)) // KDF password longer than one hash block
+		case 2:
+			secret = r.Bytes([]int{37, 38, 39, 45, 46, 47}[r.Intn(6)]) // password length around 55/56/64
+		}
+		proto := protoPool()
+		if i%2 == 0 {
+			b, en := uint32(r.U64()), uint32(r.U64())
+			if r.Chance(50) {
+				b = uint32(r.Range(0, 1<<31))
+				en = b + uint32(r.Range(1, 100000))
+			}
+			sv, err := drkey.DeriveSV(drkey.Protocol(proto), drkey.NewEpoch(b, en), secret)
+			ans, tag := "err", "~svd/err"
+			if err == nil {
+				ans, tag = "ok "+vlib.Hex(sv.Key[:]), "svd"
+				if !bytes.Equal(sv.Key[:], refSV(secret, proto, b, en)) {
+					bad(e, "doc-derivation", "secret value differs from KDF(len(secret)||secret||protocol||epoch_begin||epoch_end)",
+						map[string]any{"secret": vlib.Hex(secret), "proto": proto, "begin": b, "end": en})
+				}
+				if sv.ProtoId != drkey.Protocol(proto) || uint32(sv.Epoch.NotBefore.Unix()) != b || uint32(sv.Epoch.NotAfter.Unix()) != en {
+					bad(e, "epoch", "secret value labelled with another protocol/epoch than derived for", map[string]any{"proto": proto, "begin": b, "end": en})
+				}
+			}
+			e.Op(fmt.Sprintf("svd %s %d %d %d", vlib.Hex(secret), proto, b, en), ans, tag)
+			continue
+		}
+		dur := int64(r.Range(1, 200000))
+		if r.Chance(5) {
+			dur = 0
+		}
+		val := int64(r.Range(0, 4_000_000_000))
+		be := csdrkey.NewSecretValueBackend(nullSVDB{}, secret, time.Duration(dur)*time.Second)
+		eng := &csdrkey.ServiceEngine{SecretBackend: be}
+		var sv drkey.SecretValue
+		var err error
+		_, ok := vlib.Safe(func() string {
+			sv, err = eng.GetSecretValue(ctx, drkey.SecretValueMeta{ProtoId: drkey.Protocol(proto), Validity: time.Unix(val, int64(r.Intn(1e9)))})
+			return ""
+		})
+		ans, tag := "", "gsv"
+		switch {
+		case !ok:
+			ans, tag = "panic", "~gsv/panic"
+		case err != nil:
+			ans, tag = "err", "~gsv/err"
+		default:
+			ans = fmt.Sprintf("ok %d %d %s", uint32(sv.Epoch.NotBefore.Unix()), uint32(sv.Epoch.NotAfter.Unix()), vlib.Hex(sv.Key[:]))
+		}
+		e.Op(fmt.Sprintf("gsv %s %d %d %d", vlib.Hex(secret), proto, val, dur), ans, tag)
+	}
+
 	// --- epoch of a secret value, arbitrary times and durations (no store)
 	for i := 0; i < e.N(1500, 30000); i++ {
 		dur := int64(r.Range(1, 200000))
